@@ -28,7 +28,11 @@ def renderTy : Ty → In
   | .array t => ([91, 93] : In) ++ renderTy t
   | .map t => ([91, 115, 116, 114, 105, 110, 103, 93] : In) ++ renderTy t
   | .custom n => n
-  | .enum vs => 40 :: joinWith (([44, 32] : In)) vs ++ [41]      -- inline enum variants carry no comments when parsed
+  | .enum vs =>
+    if vs.any (fun v => !v.2.isEmpty) then
+      -- multi-line form when a variant carries comments: `(\n`, then `\t# c\n`* `\tname\n` per variant, `)`
+      ([40, 10] : In) ++ (vs.flatMap fun (v, cs) => (cs.flatMap fun c => 9 :: renderComment c ++ [10]) ++ (9 :: v ++ [10])) ++ [41]
+    else 40 :: joinWith (([44, 32] : In)) (vs.map (·.1)) ++ [41]
   | .struct fs => 40 :: renderFieldsTy fs ++ [41]
 /-- `first` handling of the field loops: `, ` between fields -/
 def renderFieldsTy : List (In × Ty × List In) → In
